@@ -632,3 +632,61 @@ func reachingValues(g *eng.Graph, info *types.Info, body ast.Node, at *eng.GNode
 	}
 	return vals, true, ok
 }
+
+// constStringSet returns the constant strings of e when e is a slice literal of constants, a local assigned once from
+// one, or a package-level variable initialised with one that the program never writes or takes the address of.
+func constStringSet(p *eng.Prog, info *types.Info, body ast.Node, e ast.Expr) ([]string, bool) {
+	e = ast.Unparen(resolveLocal(info, body, e))
+	if id, isId := e.(*ast.Ident); isId {
+		v, isV := info.ObjectOf(id).(*types.Var)
+		if !isV || v.Pkg() == nil || v.Parent() != v.Pkg().Scope() {
+			return nil, false
+		}
+		for _, ref := range p.Refs(v) {
+			if ref.Write || ref.Addr {
+				return nil, false
+			}
+		}
+		var init ast.Expr
+		for _, pk := range p.All {
+			if pk.Types != v.Pkg() {
+				continue
+			}
+			for _, file := range pk.Syntax {
+				for _, d := range file.Decls {
+					gd, isG := d.(*ast.GenDecl)
+					if !isG {
+						continue
+					}
+					for _, sp := range gd.Specs {
+						if vs, isVS := sp.(*ast.ValueSpec); isVS && len(vs.Values) == len(vs.Names) {
+							for i, nm := range vs.Names {
+								if pk.TypesInfo.Defs[nm] == types.Object(v) {
+									init = vs.Values[i]
+									info = pk.TypesInfo
+								}
+							}
+						}
+					}
+				}
+			}
+		}
+		if init == nil {
+			return nil, false
+		}
+		e = ast.Unparen(init)
+	}
+	cl, isL := e.(*ast.CompositeLit)
+	if !isL {
+		return nil, false
+	}
+	var out []string
+	for _, el := range cl.Elts {
+		k, isK := eng.ConstStr(info, el)
+		if !isK {
+			return nil, false
+		}
+		out = append(out, k)
+	}
+	return out, true
+}
